@@ -16,7 +16,12 @@ pub enum IAct {
     Sys(u8, u8, u8),
     Poll(u8),
     Tick,
+    /// long pause (ms)
+    Pause(u64),
     Reset,
+    /// 65536 x (a message on the third channel, reset): wraps 16-bit reset generation counters
+    /// even when resets without intervening traffic are skipped
+    ResetStorm,
 }
 
 pub struct IsoState<S: Scanner> {
@@ -38,6 +43,10 @@ pub struct IsoSys<S: Scanner> {
     pub chans: [u8; 3],
     /// three simultaneously active channels, each compared with its own solo scanner
     pub triple: bool,
+    /// offer the reset storm action
+    pub storm: bool,
+    /// judge `reset() == new()` on the multi-channel scanner after every reset (reported under C17)
+    pub check_reset: bool,
     pub timeout: u64,
     pub cap: u64,
     pub ctrls: Vec<u8>,
@@ -76,6 +85,8 @@ impl<S: Scanner> IsoSys<S> {
             pid: "C15",
             chans: [a, b, third],
             triple: false,
+            storm: false,
+            check_reset: false,
             timeout,
             cap: crate::iso::cap_for(timeout),
             ctrls,
@@ -122,7 +133,13 @@ impl<S: Scanner> System for IsoSys<S> {
             out.push(IAct::Sys(s, a, b));
         }
         out.push(IAct::Reset);
+        if self.storm {
+            out.push(IAct::ResetStorm);
+        }
         if S::POLLS {
+            for p in [(1u64 << 32) - 2, 1 << 32] {
+                out.push(IAct::Pause(p));
+            }
             out.push(IAct::Poll(0));
             out.push(IAct::Poll(1));
             out.push(IAct::Poll(2));
@@ -191,8 +208,25 @@ impl<S: Scanner> System for IsoSys<S> {
                 }
             }
             IAct::Tick => n.now += 1,
+            IAct::Pause(p) => n.now += *p,
             IAct::Reset => {
                 n.m.reset_all();
+                n.a.reset_all();
+                n.b.reset_all();
+                n.c.reset_all();
+                if self.check_reset {
+                    let fresh = S::make(self.timeout);
+                    if n.m != fresh {
+                        v.push(Violation::lazy("reset-equals-new", format!("C17/{}/reset-equals-new/multi-channel", S::NAME), || format!("after traffic on channels {:?} and reset() the scanner is not == a new one: {:?}", &self.chans, n.m)));
+                    }
+                }
+            }
+            IAct::ResetStorm => {
+                let third = raw(0x90 | self.chans[2], 1, 1);
+                for _ in 0..65536u32 {
+                    n.m.feed_msg(&third);
+                    n.m.reset_all();
+                }
                 n.a.reset_all();
                 n.b.reset_all();
                 n.c.reset_all();
@@ -216,8 +250,8 @@ impl<S: Scanner> System for IsoSys<S> {
             IAct::Cc(..) => 2,
             IAct::Sys(..) => 3,
             IAct::Poll(_) => 4,
-            IAct::Tick => 5,
-            IAct::Reset => 6,
+            IAct::Tick | IAct::Pause(_) => 5,
+            IAct::Reset | IAct::ResetStorm => 6,
         }
     }
     fn render(&self, a: &IAct) -> String {
@@ -226,7 +260,9 @@ impl<S: Scanner> System for IsoSys<S> {
             IAct::Sys(s, a, b) => format!("raw:{}:{}:{}", s, a, b),
             IAct::Poll(slot) => format!("poll:{}", self.chans[*slot as usize]),
             IAct::Tick => "tick".to_string(),
+            IAct::Pause(p) => format!("pause:{}", p),
             IAct::Reset => "reset".to_string(),
+            IAct::ResetStorm => "resetstorm".to_string(),
         }
     }
     fn rust_preamble(&self) -> String {
@@ -238,7 +274,9 @@ impl<S: Scanner> System for IsoSys<S> {
             IAct::Sys(s, a, b) => format!("println!(\"{{:?}}\", scanner.feed(&helgoboss_midi::test_util::short({}, {}, {})));", s, a, b),
             IAct::Poll(slot) => format!("println!(\"{{:?}}\", scanner.poll(helgoboss_midi::test_util::channel({})));", self.chans[*slot as usize]),
             IAct::Tick => "clock += 1; helgoboss_midi::verif_hooks::set_now_millis(clock);".to_string(),
+            IAct::Pause(p) => format!("clock += {}; helgoboss_midi::verif_hooks::set_now_millis(clock);", p),
             IAct::Reset => "scanner.reset();".to_string(),
+            IAct::ResetStorm => format!("for _ in 0..65536 {{ scanner.feed(&helgoboss_midi::test_util::note_on({}, 1, 1)); scanner.reset(); }}", self.chans[2]),
         }
     }
 }
@@ -269,6 +307,7 @@ fn run_triples<S: Scanner>(chk: &Check, tier: Tier, timeout: u64) {
         let mut sys = IsoSys::<S>::new(a, b, timeout, false);
         sys.chans[2] = c;
         sys.triple = true;
+        sys.storm = true;
         if S::POLLS {
             // keep the triple product small: number selection, data entry MSB/LSB only
             sys.ctrls = vec![98, 99, 38, 6];
@@ -282,7 +321,8 @@ fn run_triples<S: Scanner>(chk: &Check, tier: Tier, timeout: u64) {
 fn run_for<S: Scanner>(chk: &Check, tier: Tier, timeouts: &[u64]) {
     for &(a, b) in &pairs(tier) {
         for &t in timeouts {
-            let sys = IsoSys::<S>::new(a, b, t, tier.thorough());
+            let mut sys = IsoSys::<S>::new(a, b, t, tier.thorough());
+            sys.storm = (a, b) == pairs(tier)[0];
             let out = xs::explore(&sys, &Limits::default());
             engine::record(chk, &sys, &out, None);
         }
